@@ -76,6 +76,13 @@ def lookalike_jobs():
                ["union", [["str"], ["none"]], {"sp": "optional"}], ["union", [["float"], ["str"], ["none"]], {"sp": "typing"}]):
         jobs.append({"prog": {"classes": [], "aliases": {}},
                      "ops": [{"op": "um", "ty": ts, "val": s, "obs": ["carriers"]} for s in ("1", "null", "true", "1.5", "None", " 7 ", "abc")]})
+    # strings of "special" byte lengths for types whose constructor takes alternative raw forms (a 16-byte packed UUID, ...)
+    sized = ["1234567890123456", "abcdefghijklmnop", "\u00e9" * 8, "123456789012345", "12345678901234567", "0" * 32, "a" * 32,
+             "00000000-0000-0000-0000-000000000001", "{00000000-0000-0000-0000-000000000001}", "1" * 16, "12345678", "1234"]
+    tys = [["uuid"], ["union", [["uuid"], ["none"]], {"sp": "optional"}], ["decimal"], ["int"], ["float"], ["path"], ["date"], ["timedelta"],
+           ["union", [["int"], ["uuid"]], {"sp": "typing"}]]
+    jobs.append({"prog": {"classes": [], "aliases": {}},
+                 "ops": [{"op": "um", "ty": ts, "val": s_, "obs": ["carriers"]} for ts in tys for s_ in sized]})
     return jobs
 
 
